@@ -1,5 +1,6 @@
 import json
 props = {
+ "C10": ("H-TIMER", "seeded search over timer registration / watermark-advance / checkpoint+restore histories with cache sizes below the timer set, interleaved with the DB background tasks and crash points; oracle: reference set of pending timers (exactly-once, non-decreasing order)", "5.C10"),
  "C20": ("H-BATCH", "seeded search over interleavings of adder, size flush, time-out flusher, asynchronous fetches, consumer and clock advances; oracle: concatenation of batches / fetcher output equals the input sequence, stale tokens flush nothing", "5.C20"),
  "C07": ("H-DKV", "seeded search over foreground-operation histories x flush/compaction interleavings; sequential-map oracle on every Get/ScanPrefix", "5.C07"),
  "C08": ("H-DKV", "seeded search over histories with checkpoints, crash (process kill) and restore chains; model snapshot per Checkpoint call compared after every restore", "5.C08"),
